@@ -55,6 +55,7 @@ namespace verif
     {
         std::size_t off, size, align;
         int         tag = 0; // who asked: 0 = the allocator under test, 1 = the harness itself (sibling memory)
+        int         group = 0; // which arena of the allocators under test (blocks of one arena always travel together)
     };
 
     struct Region
@@ -73,7 +74,7 @@ namespace verif
         std::vector<std::string>     events;      // since last take_events()
         long                         calls = 0, fail_at = -1;
         long                         n_alloc = 0, n_dealloc = 0, n_fail = 0;
-        int                          cur_tag = 0;
+        int                          cur_tag = 0, cur_group = 0;
         std::vector<std::string>     errors; // ledger violations (double free, wrong size, unknown pointer)
         std::vector<UpBlock>         poisoned; // released blocks, filled with 0xEE: nobody may write into them any more
         bool                         poison = true;
@@ -205,7 +206,7 @@ namespace verif
             }
             if (poison)
                 unpoison_overlapping(o, size);
-            outstanding.push_back({o, size, align, cur_tag});
+            outstanding.push_back({o, size, align, cur_tag, cur_group});
             ++n_alloc;
             std::snprintf(buf, sizeof buf, "a:%zu:%zu:%zu", size, align, o);
             events.push_back(buf);
@@ -231,9 +232,9 @@ namespace verif
                         std::memset(base + b.off, 0xEE, b.size);
                         poisoned.push_back(b);
                     }
-                    // C05: blocks go back in reverse order of acquisition (per requester)
+                    // C05: blocks go back in reverse order of acquisition (per requester and per arena)
                     for (std::size_t j = i + 1; j < outstanding.size(); ++j)
-                        if (outstanding[j].tag == b.tag)
+                        if (outstanding[j].tag == b.tag && outstanding[j].group == b.group)
                         {
                             errors.push_back(std::string("block released out of order (a more recently acquired block is still outstanding) ") + buf);
                             break;
